@@ -902,3 +902,4 @@ META = {
 }
 
 META['explanation'] += ' ' + 'Further: loader bundle (layout, strip, encoding, completeness) and the segmentation bundle shared from C05 (splice discipline, slice tiling, multi-word parts, totality); counted value = labelled segment.'
+META['explanation'] += ' ' + 'Round 14: the last detector labels and reports every untyped section under the same condition (blank-only sections included).'
